@@ -40,7 +40,7 @@ PROPS = {
         "assumptions": COMMON_ASSUME,
     },
     "C05": {
-        "arms": [arm("hist", 1, weight=4), arm("hist", 0, weight=3), arm("hist", 1, "asan0", weight=1)],
+        "arms": [arm("hist", 1, weight=3), arm("hist", 0, weight=2), arm("resolve", 0, weight=2), arm("resolve", 1, weight=1), arm("hist", 1, "asan0", weight=1)],
         "rule": "one run = a history of edits, solves (some cut short), basis loads and copies; non-trivial = at least one definitive solve of an object with history that was compared with a freshly built copy of the model; distinct = distinct plan hashes",
         "assumptions": COMMON_ASSUME,
     },
@@ -65,7 +65,7 @@ PROPS = {
         "assumptions": COMMON_ASSUME,
     },
     "C17": {
-        "arms": [arm("hist", 1, weight=3), arm("invalid", 0, weight=1), arm("solve", 1, weight=2), arm("config", 1, weight=1), arm("copy", 1, weight=2), arm("io", 1, weight=2), arm("reader", 1, weight=1), arm("lu", 1, weight=1), arm("cli", 1, weight=1), arm("hist", 1, "asan0", weight=1)],
+        "arms": [arm("hist", 1, weight=3), arm("invalid", 0, weight=1), arm("solve", 1, weight=2), arm("config", 1, weight=1), arm("copy", 1, weight=2), arm("io", 1, weight=2), arm("reader", 1, weight=1), arm("lu", 1, weight=1), arm("cli", 1, weight=1), arm("resolve", 1, weight=2), arm("hist", 1, "asan0", weight=1)],
         "rule": "union of all profiles under ASan+UBSan (crash, hang and sanitizer reports are violations); plus twin runs: a sample of plans is executed in three fresh processes (asan / plain -O2 / asan with GMP on malloc; different fresh-memory fill pattern and environment size) whose transcripts - return codes, statuses, digests of every solution vector, bases, bytes of written files - must be identical; thorough adds valgrind memcheck on the plain binary; non-trivial = a run of >= 3 operations; distinct = distinct plan hashes",
         "assumptions": COMMON_ASSUME + ["reads of uninitialised memory are detected differentially (fill patterns) and by valgrind on a subset; MSan is unusable with uninstrumented libgmp"],
         "twin": True,
